@@ -244,6 +244,13 @@ func (e *SpecEnv) ident(name string) Val {
 		if v, ok := e.frame.lookupLocal(name, e.block, e.heap); ok {
 			return v
 		}
+		// a local that was renamed since the ledger was written (same position, same type)
+		if alias := u.W.localAlias(e.frame.fn, name); alias != "" {
+			if v, ok := e.frame.lookupLocal(alias, e.block, e.heap); ok {
+				u.note("local `" + name + "` of " + funcDisplayName(e.frame.fn) + " is now called `" + alias + "` (renamed since the contract was written; matched by declaration order and type)")
+				return v
+			}
+		}
 	}
 	// package scope
 	if e.pkg != nil {
